@@ -198,7 +198,7 @@ pub fn small_tree(ncfg: NodeCfg, parents: &[usize], gt_mask: u32, with_txs: bool
                 vec![]
             },
             bad_tx: None,
-            corrupt: None,
+            corrupt: None, back: None,
         });
     }
     HistSpec {
